@@ -97,7 +97,7 @@ func runGroundPkg(w *World, o *Options, pkg string, gs []*GroundOb) []*Obligatio
 			ob.Status = "discharged"
 		case strings.Contains(text, fmt.Sprintf("GROUND %d FAIL\n", i)):
 			ob.Status = "failed"
-			ob.Output = "evaluates to false on the real code: " + g.Args[0]
+			ob.Output = "evaluates to false on the real code: " + g.Args[0] + "\n" + grepLines(text, "bounded:")
 			ob.Extra = map[string]string{"confirmed": "true"}
 		case strings.Contains(text, fmt.Sprintf("GROUND %d PANIC", i)):
 			ob.Status = "failed"
@@ -136,3 +136,16 @@ func numFields(v interface{}) int {
 	return t.NumField()
 }
 `
+
+func grepLines(text, prefix string) string {
+	var out []string
+	for _, l := range strings.Split(text, "\n") {
+		if strings.Contains(l, prefix) {
+			out = append(out, l)
+		}
+	}
+	if len(out) > 20 {
+		out = out[:20]
+	}
+	return strings.Join(out, "\n")
+}
